@@ -263,7 +263,10 @@ func (o *ObjectSchema) serializeStruct(data any) (any, error) {
 }
 
 func (o *ObjectSchema) extractPropertyValue(propertyID string, v reflect.Value, property *PropertySchema) (*any, error) {
-	valPtr := o.getFieldReflection(propertyID, v, property)
+	valPtr, err := o.getFieldReflection(propertyID, v, property)
+	if err != nil {
+		return nil, err
+	}
 	if valPtr == nil {
 		return nil, nil
 	}
@@ -284,7 +287,12 @@ func (o *ObjectSchema) extractPropertyValue(propertyID string, v reflect.Value, 
 	return &serializedData, nil
 }
 
-func (o *ObjectSchema) getFieldReflection(propertyID string, v reflect.Value, property *PropertySchema) *reflect.Value {
+// getFieldReflection returns the field of the struct value v that holds the property, or nil if it is not set.
+func (o *ObjectSchema) getFieldReflection(
+	propertyID string,
+	v reflect.Value,
+	property *PropertySchema,
+) (*reflect.Value, error) {
 	field := o.fieldCache[propertyID]
 	if v.Kind() == reflect.Pointer {
 		v = v.Elem()
@@ -292,11 +300,18 @@ func (o *ObjectSchema) getFieldReflection(propertyID string, v reflect.Value, pr
 	val, err := v.FieldByIndexErr(field.Index)
 	if err != nil {
 		// The field is promoted from an embedded pointer to a struct that is nil: it is not set.
-		return nil
+		return nil, nil //nolint:nilerr
+	}
+	if !val.CanInterface() {
+		// An unexported field: reflection refuses to hand its value out (with a panic).
+		return nil, &ConstraintError{
+			Message: fmt.Sprintf("Field cannot be read: '%s' is not exported", field.Name),
+			Path:    []string{propertyID},
+		}
 	}
 	if val.Kind() == reflect.Pointer {
 		if val.IsNil() {
-			return nil
+			return nil, nil
 		}
 		if property.ReflectedType().Kind() != reflect.Pointer {
 			val = val.Elem()
@@ -305,17 +320,17 @@ func (o *ObjectSchema) getFieldReflection(propertyID string, v reflect.Value, pr
 	if (val.Kind() == reflect.Slice || val.Kind() == reflect.Map) && val.IsNil() && !property.Required() {
 		// This is what Unserialize leaves in the field of an absent list or map property: not set.
 		// For a required property, nil keeps meaning the empty list or map.
-		return nil
+		return nil, nil
 	}
 	if property.Disabled && val.IsZero() {
 		// A disabled property cannot be supplied, so Unserialize leaves its field at the zero value, which a field
 		// that is not a pointer cannot tell from "not set".
-		return nil
+		return nil, nil
 	}
 	if val.Interface() == nil {
-		return nil
+		return nil, nil
 	}
-	return &val
+	return &val, nil
 }
 
 func (o *ObjectSchema) Serialize(data any) (any, error) {
@@ -386,7 +401,10 @@ func (o *ObjectSchema) validateStruct(data any) error {
 		}
 	}
 	for propertyID, property := range o.PropertiesValue {
-		valPtr := o.getFieldReflection(propertyID, v, property)
+		valPtr, err := o.getFieldReflection(propertyID, v, property)
+		if err != nil {
+			return err
+		}
 		if valPtr == nil {
 			continue
 		}
